@@ -1,10 +1,10 @@
 /-
   AITB.Props.C03Tie — the reference values the compiled driver evaluates on materialised beliefs (`upperRefV`, `lowerRefV`,
-  `iterHV`, AITB.Model.POMDP) ARE the reference families of the theorems (`upperRef`, `lowerRef`, `iterH`).
+  `iterHV`, AITB.Model.POMDP3) ARE the reference families of the theorems (`upperRef`, `lowerRef`, `iterH`).
 -/
 import AITB.Props.C03Refs
 
-namespace AITB.POMDP
+namespace AITB.POMDP3
 open AITB.MDP
 
 theorem bstepV_get (m : POMDP) (x : Vec) (a o s : Nat) (hs : s < m.S) : (bstepV m x a o).get s = bstep m x.get a o s := mkVec_get _ hs
@@ -94,4 +94,4 @@ theorem lowerRefV_eq (m : POMDP) (hA : 0 < m.A) (c : Nat → Rat) (j k : Nat) (x
   unfold dotS
   exact sumTo_congr (fun s hs => by rw [blindIterV_get m i j (c i) s hs])
 
-end AITB.POMDP
+end AITB.POMDP3
